@@ -353,6 +353,7 @@ func (r *Run) Explore(fns []*ssa.Function) []*HarnessRun {
 			r.SolverSat += s.NSat
 			r.SolverUnsat += s.NUnsat
 			r.SolverUnknown += s.NUnk
+			r.SolverFallbacks += s.Fallbacks
 			r.SolverTime += s.Time
 		}
 	}
@@ -422,7 +423,7 @@ func (r *Run) redirects() map[string]*ssa.Function {
 
 // aggregated solver statistics
 type SolverStats struct {
-	SolverQueries, SolverSat, SolverUnsat, SolverUnknown int
+	SolverQueries, SolverSat, SolverUnsat, SolverUnknown, SolverFallbacks int
 	SolverTime                                            time.Duration
 }
 
